@@ -21,7 +21,9 @@ RULE = ("generated tables rendered per source format (csv-raw/ob-csv through the
         "quoted cells with commas / doubled quotes / JSON) and one 300k-line streamed csv file, all in the one implementation process, "
         "each parsed row judged against the cells it was rendered from (counted in evaluations, one 'distinct' per format)")
 THEOREMS = ["C16_generic_dispatch", "C16_tsv", "C16_tsv_any_terminator", "C16_tsv_physical_lines", "C16_tsv_prefix_refuted",
-            "C16_tsv_prefix_refuted_blanks", "C16_csv", "C16_csv_any_terminator", "C16_csv_physical_lines",
+            "C16_tsv_prefix_refuted_blanks", "C16_csv", "C16_csv_any_terminator", "C16_csv_any_quoting",
+            "C16_csv_any_quoting_physical_lines", "C16_csv_limit_exceeded", "C16_vw_prefix_is_of_joined_string", "C16_processed_rows",
+            "C16_csv_physical_lines",
             "C16_csv_linebreak_hypothesis_needed", "C16_csv_naive_refuted", "C16_vw", "C16_vw_present", "C16_vw_absent",
             "C16_vw_never_rejected", "C16_reject_whole", "C16_accepted_rows_are_the_matching_rows", "C16_stream_csv", "C16_stream_tsv",
             "C16_namespace", "C16_namespace_line", "C16_namespace_underscore_quirk", "C16_namespace_other_counts", "C16_examples"]
@@ -91,6 +93,56 @@ def py_render_csv(row):
         else:
             out.append(f)
     return ",".join(out)
+
+
+def py_render_q(row, flags):
+    """Mirror of the model's render_q: a field is quoted when its flag says so or when it must be."""
+    if len(row) == 1 and row[0] == "":
+        return '""'
+    out = []
+    for f, q in zip(row, flags):
+        if q or any(c in f for c in ',"\n\r'):
+            out.append('"' + f.replace('"', '""') + '"')
+        else:
+            out.append(f)
+    return ",".join(out)
+
+
+def seglit(segs):
+    """[codes | ["rep", c, n]] -> Coq term (long runs are built inside Coq instead of being written out)"""
+    parts = []
+    for s in segs:
+        if s and s[0] == "rep":
+            parts.append("N.iter %d (cons %d) []" % (s[2], s[1]))
+        else:
+            parts.append(nl(s))
+    return "(" + " ++ ".join(parts) + ")"
+
+
+def segcodes(segs):
+    out = []
+    for s in segs:
+        out += [s[1]] * s[2] if (s and s[0] == "rep") else list(s)
+    return out
+
+
+FIELD_LIMIT = 131072
+
+
+def gen_limit_cases(thorough):
+    """fields at / beyond csv.field_size_limit(): one character too many -> csv.Error (also out of the streaming loop)"""
+    out = []
+    for n, fam in ((FIELD_LIMIT + 1, "limit-over"),) + (((FIELD_LIMIT, "limit-at"),) if thorough else ()):
+        for segs in ([C("x,"), ["rep", 97, n], C(",y\n")], [C('x,"'), ["rep", 97, n], C('",y\n')]):
+            c = line_case("csv-raw", "", ["a", "b", "c"], family=fam)
+            c["line"] = segcodes(segs)
+            c["line_segs"] = segs
+            out.append(c)
+    segs = [C("a,b\nx,y\np,"), ["rep", 97, FIELD_LIMIT + 1], C("\nz,w\n")]
+    out.append({"kind": "stream", "source": "csv-raw", "delim": C(","), "fw": None, "header": [C("a"), C("b")], "text": segcodes(segs),
+                "text_segs": segs, "bsize": 1, "encoding": "utf-8", "gz": False, "family": "limit-over-stream",
+                "line_kinds": ["good", "over-limit", "good"]})
+    return out
 
 
 def names(rng, k):
@@ -163,7 +215,7 @@ def gen_wellformed_lines(rng, n, long_len):
     cases = []
     for i in range(n):
         k = rng.choice([1, 1, 2, 3, 3, 4, 5, 8])
-        fam = rng.choice(["csv", "csv", "tsv", "tsv", "vw", "vw"])
+        fam = rng.choice(["csv", "csv", "csvq", "tsv", "tsv", "vw", "vw"])
         if fam == "csv":
             row = gen_row(rng, k, forbid="\n\r")
             if i < 2 and long_len:
@@ -174,6 +226,14 @@ def gen_wellformed_lines(rng, n, long_len):
                 term = "\n"
             cases.append({"kind": "writer", "row": [C(x) for x in row], "family": "wf-csv"})
             cases.append(line_case(src, py_render_csv(row) + term, names(rng, k), family="wf-csv", expect=row))
+        elif fam == "csvq":
+            row = gen_row(rng, k, forbid="\n\r")
+            mode = rng.random()
+            flags = [True] * k if mode < 0.35 else [rng.random() < 0.5 for _ in range(k)]
+            src = rng.choice(["csv-raw", "ob-csv"])
+            term = rng.choice(["\n", "\n", "\n", "\r\n", ""])
+            cases.append({"kind": "writer", "row": [C(x) for x in row], "flags": flags, "family": "wf-csvq"})
+            cases.append(line_case(src, py_render_q(row, flags) + term, names(rng, k), family="wf-csvq", expect=row))
         elif fam == "tsv":
             delim = rng.choice(["\t", "\t", "\t", "\t", ";", " ", ","])
             row = gen_row(rng, k, forbid="\n\r" + delim)
@@ -420,13 +480,16 @@ def model_expr(c):
     if k == "line":
         src = SRC.get(c["source"], "UnknownSource")
         d = c["delim"][0] if len(c["delim"]) == 1 else 0
-        return "generic_line_parser %s %d %s %s %s" % (src, d, fwlit(c["fw"]), nll(c["header"]), nl(c["line"]))
+        line = seglit(c["line_segs"]) if c.get("line_segs") else nl(c["line"])
+        return "generic_line_parser %s %d %s %s %s" % (src, d, fwlit(c["fw"]), nll(c["header"]), line)
     if k == "writer":
+        if c.get("flags") is not None:
+            return "Csv.render_q [%s]" % "; ".join("(%s, %s)" % (vlib.blit(q), nl(f)) for q, f in zip(c["flags"], c["row"]))
         return "Csv.render %s" % nll(c["row"])
     if k == "stream":
         src = SRC[c["source"]]
         return ("let s := run_loop (generic_line_parser %s %d %s %s) %d%%nat %d%%nat %s in (batches_seen %d%%nat s, invalid s, crashed s)"
-                % (src, c["delim"][0], fwlit(c["fw"]), nll(c["header"]), len(c["header"]), c["bsize"], nl(c["text"]), c["bsize"]))
+                % (src, c["delim"][0], fwlit(c["fw"]), nll(c["header"]), len(c["header"]), c["bsize"], seglit(c["text_segs"]) if c.get("text_segs") else nl(c["text"]), c["bsize"]))
     if k == "namespace":
         return "let r := parse_namespace %s in (fst r, snd r, vw_header (snd r))" % nl(c["text"])
     if k == "csvheader":
@@ -493,6 +556,13 @@ def compare(c, r, v):
         if c.get("expect") is not None and "row" in m and m["row"] != c["expect"]:
             return ("harness:expected-row", "model row differs from the generated table row (harness mirror of the renderer is off)",
                     g, m, False)
+        return None
+    if k == "writer" and c.get("flags") is not None:
+        mirror = C(py_render_q([S(x) for x in c["row"]], c["flags"]))
+        got = {kk: r[kk] for kk in ("all", "nonnumeric") if kk in r}
+        if list(v) != mirror or any(x != mirror for x in got.values()):
+            return ("correspondence:QUOTE_MINIMAL writer model = csv.writer", "record with optional quoting differs (model render_q / harness "
+                    "mirror / csv.writer QUOTE_ALL, QUOTE_NONNUMERIC)", got, list(v), False)
         return None
     if k == "writer":
         if r["text"] != list(v) or S(r["text"]) != py_render_csv([S(x) for x in c["row"]]):
@@ -585,6 +655,11 @@ def compare(c, r, v):
 
 def evaluate(cases, tag="C16"):
     """Run implementation and model on the cases; -> list of compare() results."""
+    for c in cases:                                  # compact (replayed) cases carry only the segments
+        if c.get("line_segs") and not c.get("line"):
+            c["line"] = segcodes(c["line_segs"])
+        if c.get("text_segs") and not c.get("text"):
+            c["text"] = segcodes(c["text_segs"])
     work = os.path.join(vlib.CACHE, "c16_%d" % os.getpid())
     res = vlib.run_impl("impl_c16.py", {"cases": cases, "workdir": work}, env_extra={"PYTHONUTF8": "1"})["results"]
     exprs, idx = [], []
@@ -641,7 +716,7 @@ def nontrivial(c):
     k = c["kind"]
     if k == "line":
         s = S(c["line"])
-        if c["family"].startswith("mal") or c["family"].startswith("exh"):
+        if c["family"].startswith(("mal", "exh", "limit")):
             return len(s) > 0
         ex = c.get("expect")
         if ex is not None:
@@ -678,6 +753,7 @@ def check(run, replay):
             cases.append({"kind": "dispatch", "source": C(s), "family": "dispatch"})
         cases += gen_wellformed_lines(rng, 6000 if thorough else 900, 100000 if thorough else 20000)
         cases += gen_malformed_lines(rng, 4000 if thorough else 500)
+        cases += gen_limit_cases(thorough)
         for _ in range(1200 if thorough else 160):
             cases.append(gen_stream(rng))
         if thorough:
@@ -697,7 +773,9 @@ def check(run, replay):
     for c, o in zip(cases, outs):
         fam = c.get("family", c["kind"])
         fams[fam] = fams.get(fam, 0) + 1
-        canon = {k: v for k, v in c.items() if k not in ("expect", "line_kinds", "family", "names", "simple")}
+        canon = {k: v for k, v in c.items() if k not in ("expect", "line_kinds", "family", "names", "simple", "line_segs", "text_segs")}
+        if c.get("line_segs") or c.get("text_segs"):
+            canon = {"kind": c["kind"], "segs": c.get("line_segs") or c.get("text_segs")}
         run.count_case(canon, nontrivial(c))
         if o is None:
             continue
@@ -744,7 +822,7 @@ def check(run, replay):
             run.violation("counterexample", ob, case=c, impl=show(impl), model=model, clause=clause, extra=extra)
             continue
         small = c
-        if replay is None and shrunk < 1 and not c.get("family", "").startswith("wf-") and not c.get("family", "").startswith("scale"):
+        if replay is None and shrunk < 1 and not c.get("family", "").startswith(("wf-", "scale", "limit")):
             shrunk += 1
             try:
                 small = shrink(c, ob)
@@ -754,6 +832,13 @@ def check(run, replay):
             o2, _ = evaluate([small], tag="C16s")
             if o2[0] is not None:
                 _, clause, impl, model, _ = o2[0]
+        if small.get("line_segs") or small.get("text_segs"):          # keep the replay compact: the segments rebuild the text
+            small = {k: v for k, v in small.items() if k not in (("line",) if small.get("line_segs") else ("text",))}
+            impl, model = json.loads(json.dumps(impl)[:100000] if len(json.dumps(impl)) < 100000 else '"(long)"'), model
+            run.violation("counterexample", ob, case=small, impl=impl if isinstance(impl, str) else show(impl),
+                          model=show(model) if len(json.dumps(model)) < 100000 else "(long)", clause=clause,
+                          extra={"disagreeing_cases_for_this_obligation": obligations[ob]})
+            continue
         run.violation("counterexample", ob, case=small, impl=show(impl), model=show(model), clause=clause,
                       extra={"readable_case": show({k: v for k, v in small.items() if k not in ("expect",)}),
                              "disagreeing_cases_for_this_obligation": obligations[ob]})
